@@ -328,19 +328,29 @@ def main():
   consts = dict(MaxObjs=3, MaxItems=2, NLeaves=1, NKeys=1, NSlots=2, NFns=1,
                 KindSet={'config', 'partial', 'list', 'tagged'}, TagChoices={0, 1},
                 UnsetTagged=True, EmitOn=True, AliasFix=True)
-  if quick:
-    consts.update(TagChoices={0}, UnsetTagged=True)
-  else:
-    consts.update(KindSet={'config', 'partial', 'list', 'dict', 'tuple', 'tagged'})
+  runs = [dict(consts, TagChoices={0}, UnsetTagged=True)]
+  if not quick:
+    # (sized with TLC alone: six kinds with tags over three objects are beyond a million heaps, each judged
+    # under nine transformations)
+    runs += [dict(consts, KindSet={'config', 'partial', 'list', 'dict', 'tuple'}, TagChoices={0}, UnsetTagged=False),
+             dict(consts, MaxObjs=2, KindSet={'config', 'partial', 'list', 'dict', 'tuple', 'tagged'},
+                  TagChoices={0, 1}, UnsetTagged=True)]
   with common.scratch() as wd:
-    disp = common.Dispatcher(work, chunk=100)
-    res = common.run_tlc('MC_C20', common.cfg_text(consts, constraints=['GenPrune'],
-                                                   invariants=['RefSatisfiesClauses', 'Emit']),
-                         workdir=os.path.join(wd, 'mc'), on_json=disp)
-    common.require_tlc_ok(res, 'MC_C20')
     recs = []
-    for part in disp.results():
-      recs += part
+    res = None
+    for n, c in enumerate(runs):
+      disp = common.Dispatcher(work, chunk=100)
+      r = common.run_tlc('MC_C20', common.cfg_text(c, constraints=['GenPrune'],
+                                                   invariants=['RefSatisfiesClauses', 'Emit']),
+                         workdir=os.path.join(wd, f'mc{n}'), on_json=disp)
+      common.require_tlc_ok(r, 'MC_C20')
+      for part in disp.results():
+        recs += part
+      if res is None:
+        res = r
+      else:
+        res.distinct += r.distinct
+        res.generated += r.generated
     # explicit defaults in the input (leaf = default value of the slot) via random heaps
     rng = random.Random(common.seed() * 141650939 + 8)
     for _ in range(150 if quick else 1500):
